@@ -2009,6 +2009,43 @@ func GenC19(rng *rand.Rand, thorough bool, emit func(*Sx)) {
 		}
 		emit(RunConv(f.caseOf("C19", segStream(rng, f.out, nil, rng.Intn(4), rawEOF))))
 	}
+	// (e) hostile parameter VALUES inside an open transaction on a server with every extension enabled: C0 and
+	// C1 controls (raw, one and two octets), NUL, lone and overlong UTF-8, surrogates and huge code points in
+	// \x{..} form, signs and overflows in numbers - whatever the reply, nothing may panic and NOOP is answered
+	{
+		hostile := []string{"\x00", "\x01", "\x7f", "\x80", "\x9f", "\xc2\x80", "\xc2\x85", "\xc2\x9f", "\xc2\xa0", "\xc2", "\xe2\x80", "\xc0\x80",
+			"\xed\xa0\x80", "\xf4\x90\x80\x80", "\xef\xbf\xbf", "\\x{D800}", "\\x{110000}", "\\x{FFFFFFFFFFFFFFFFFFFF}", "\\x{}", "\\x{", "\\x", "\\",
+			"+", "+0", "+G0", "+80", "-1", "99999999999999999999999", "0x10", "", "=", ";", "a;b;c", "<>", "<", "\"", "\t"}
+		keysMail := []string{"SIZE=", "BODY=", "ENVID=", "AUTH=", "RET=", "AUTH=<", "ENVID=a", "MT-PRIORITY="}
+		keysRcpt := []string{"ORCPT=utf-8;", "ORCPT=rfc822;", "ORCPT=utf-8;a", "ORCPT=", "NOTIFY=", "NOTIFY=SUCCESS,", "RRVS=", "RRVS=2014-04-03T23:01:00"}
+		hn := 0
+		for _, lmtp := range []bool{false, true} {
+			for ki := 0; ki < len(keysMail)+len(keysRcpt); ki++ {
+				for hi, h := range hostile {
+					hn++
+					if !thorough && lmtp && (hn+hi)%3 != 0 {
+						continue
+					}
+					cfg := DefaultCfg()
+					cfg.LMTP = lmtp
+					cfg.UTF8, cfg.DSN, cfg.RRVS, cfg.BinaryMIME, cfg.RequireTLS = true, true, true, true, true
+					f := newF(cfg)
+					f.known = false
+					f.hello()
+					if ki < len(keysMail) {
+						f.raw("MAIL FROM:<s@ok> " + keysMail[ki] + h + "\r\n")
+					} else {
+						f.raw("MAIL FROM:<s@ok>\r\n")
+						f.raw("RCPT TO:<r@ok> " + keysRcpt[ki-len(keysMail)] + h + "\r\n")
+						f.raw("RCPT TO:<r2@ok> " + keysRcpt[ki-len(keysMail)] + h + "@x NOTIFY=NEVER\r\n")
+					}
+					f.raw("NOOP\r\n")
+					f.raw("QUIT\r\n")
+					emit(RunConv(f.caseOf("C19", segStream(rng, f.out, nil, hn%4, rawEOF))))
+				}
+			}
+		}
+	}
 	// (d) all short strings over a hostile alphabet as command lines, and random binary input
 	alpha := []string{"\x00", "\r", "\n", " ", "A", ":", "<", "\xff", "\xc5\xbf"}
 	maxLen := 3
